@@ -84,6 +84,11 @@ func HC19_anchoring() {
 	if rt.Bool("last-not-considered") {
 		chose = chose[:A-1]
 	}
+	if len(chose) > 1 && rt.Bool("chose-listed-descending") {
+		for i, j := 0, len(chose)-1; i < j; i, j = i+1, j-1 {
+			chose[i], chose[j] = chose[j], chose[i]
+		}
+	}
 	w := vh.Weights("w.", crit, 0, 4) // includes importances below 0.01: the applier raises them
 	mp := majority.MajorityHeuristicParams{Weights: w}
 	current := vh.Params(known, chose, crit, mp)
